@@ -953,6 +953,9 @@ bool OPNMIDIplay::doRolandSysEx(unsigned dev, const uint8_t *data, size_t size)
         (((unsigned)data[2] & 0x7F));
     unsigned target_channel = 0;
 
+    if(dev == 0x7F) // Broadcast: addressed to every device
+        dev = 0x10 | m_sysExDeviceId;
+
     /* F0 41 10 42 12 40 00 7F 00 41 F7 */
 
     if((address & 0xFFF0FF) == 0x401015) // Turn channel 1 into percussion
@@ -1031,6 +1034,9 @@ bool OPNMIDIplay::doYamahaSysEx(unsigned dev, const uint8_t *data, size_t size)
     unsigned model = data[0] & 0x7F;
     ++data;
     --size;
+
+    if(dev == 0x7F) // Broadcast: addressed to every device
+        dev = 0x10 | m_sysExDeviceId;
 
     switch((model << 8) | (dev & 0xF0))
     {
